@@ -143,6 +143,31 @@ def searchEvents (srch evo : List PTok) (plans : List RunPlan) : List Ev :=
 def sessionEvents (calls : List (List RunPlan)) : List Ev :=
   calls.flatMap (searchEvents Tables.searchRun Tables.evolutionRun)
 
+/-! ### the shape of a schedule, compared by the driver with the calls observed in real searches -/
+
+inductive Tag
+  | init (r : Nat) | shake (g : Nat) | cb (g : Nat) | close (r : Nat)
+deriving DecidableEq, Repr
+
+/-- strategy calls and callbacks of an event list (`cb g` = the callback of the generation whose `shake`
+    was called with `g`) -/
+def shape : List Ev → Nat → List Tag
+  | [], _ => []
+  | .init r _ :: es, _ => .init r :: shape es 0
+  | .shake g _ :: es, _ => .shake g :: shape es g
+  | .close r :: es, g => .close r :: shape es g
+  | .obs :: es, g => .cb g :: shape es g
+  | _ :: es, g => shape es g
+
+def Orc.dflt : Orc := ⟨fun _ => 0, fun _ => false⟩
+def GenPlan.dflt : GenPlan := ⟨Orc.dflt, fun _ => 0, fun _ => 0⟩
+/-- a run of `n` generations -/
+def RunPlan.ofGens (n : Nat) : RunPlan := ⟨Orc.dflt, fun _ => 0, List.replicate n GenPlan.dflt, fun _ => 0, fun _ => 0⟩
+
+/-- the calls the model predicts for one `run(k)` whose runs last `gens` generations -/
+def predictedShape (gens : List Nat) : List Tag :=
+  shape (searchEvents Tables.searchRun Tables.evolutionRun (gens.map RunPlan.ofGens)) 0
+
 /-- what `src_search::validation_strategy(id)` installs, read off the extracted table -/
 def stratOf (row : String × String × List String) : Option Strat :=
   match row with
